@@ -451,7 +451,7 @@ func TestVerif_C03_damage(t *testing.T) {
 
 func TestVerif_C03_damageenum(t *testing.T) {
 	col := verifkit.New("C03", "damageenum",
-		"for generated logs (rapid) one frame that is followed by at least two more frames is chosen and EVERY byte position of it (magic, opcode, 4 length bytes, 4 checksum bytes, every payload byte) is damaged in 5 ways (flip bit 0, flip bit 7, set 0x00, set 0xFF, set 0xA5), each variant recovered with engine.Open under the same oracle; non-trivial = every variant (intact frames follow the damaged one)")
+		"for generated logs (rapid) one frame that is followed by at least two more frames is chosen and EVERY header byte position of it (magic, opcode, 4 length bytes, 4 checksum bytes) and every payload byte (an even sample of about 200 when the payload is longer) is damaged in 5 ways (flip bit 0, flip bit 7, set 0x00, set 0xFF, set 0xA5), each variant recovered with engine.Open under the same oracle; non-trivial = every variant (intact frames follow the damaged one)")
 	defer col.Finish()
 	if rp := verifkit.ReplayPath(); rp != "" {
 		if verifkit.ReplayPart(rp) != "damageenum" {
@@ -481,7 +481,15 @@ func TestVerif_C03_damageenum(t *testing.T) {
 		if reset && rapid.Bool().Draw(rt, "first-data-frame") {
 			f = 0 // the frame right behind the RESET record
 		}
+		// every header byte; every payload byte of a short frame, an even sample of ~200 of a long one
+		stride := 1
+		if n := ext[f][1] - ext[f][0] - persistence.HeaderSize; n > 200 {
+			stride = n / 200
+		}
 		for p := ext[f][0]; p < ext[f][1]; p++ {
+			if off := p - ext[f][0] - persistence.HeaderSize; off > 0 && off%stride != 0 {
+				continue
+			}
 			for _, d := range []c03Damage{{Kind: "flip", Pos: p, Bit: 0}, {Kind: "flip", Pos: p, Bit: 7}, {Kind: "set", Pos: p, Fill: []byte{0}}, {Kind: "set", Pos: p, Fill: []byte{0xFF}}, {Kind: "set", Pos: p, Fill: []byte{0xA5}}} {
 				c := c03Case{Cmds: cmds, Damages: []c03Damage{d}, Reset: reset}
 				variants++
